@@ -287,8 +287,11 @@ class Walker:
             for n in ir.walk(b):
                 k = n.get('k')
                 if k in ('Assign', 'AssignOp'):
-                    l = ir.strip(n['l'])
-                    if l.get('k') == 'Var':
+                    l0 = n['l']
+                    l = ir.strip(l0)
+                    # `*p = v` through a reference writes the place p points to, not the variable p
+                    through_ref = l0.get('k') == 'Deref' and l.get('k') == 'Var'
+                    if l.get('k') == 'Var' and not through_ref:
                         frame.mut_vars.add(l['v'])
                 elif k == 'Closure':
                     # closures are separate body owners but share the variables of their parent
